@@ -170,6 +170,14 @@ func (t *template) layout(ctx context.Context, w io.Writer) error {
 		}
 
 		layout := tpl.Get("layout")
+		if !isFirstTemplate {
+			// a layout names its own layout in its front-matter; a `layout` key of the site's
+			// config (theme.yml, data/*.yml) is the default for pages, not for the layouts they use
+			layout = ""
+			if v, ok := tpl.frontMatter["layout"]; ok && v != nil {
+				layout = fmt.Sprint(v)
+			}
+		}
 
 		if layout == "" {
 			// No layout specified
